@@ -22,5 +22,6 @@ def run(e, R, tier):
         C.r_cause,
         L.r_own_resolve,
         L.r_drop_resolves,
+        L.r_callback_lock,
     ])
 
